@@ -107,13 +107,13 @@ claim("C14",
 
 claim("C13",
       "The real LineageRunner with and without the dict-backed provider whose column lists are SYMBOLIC and whose knowledge of each table "
-      "is a free bit: 17 templates (SELECT * single/join/qualified/derived/CTE, unqualified column over joins incl. free schema+table names, "
+      "is a free bit: 18 templates (SELECT * single/join/qualified/derived/CTE, unqualified column over joins incl. free schema+table names, "
       "INSERT positions from target metadata, explicit list with FREE listed names - permutation of / overlap with / longer or shorter than the known columns, over a union and a CTE -, CTAS, unknown tables) + a seeded share of the corpus under an unrelated "
       "provider; z3 decides over all column namings (overlap patterns are its case split) that table lineage is unchanged and the pairs equal "
       "the refinement contract. Witnesses replayed on the unmodified library with the concrete metadata dict.",
-      TRUST + "; parser boundary stubbed; SQLAlchemy provider only through the shared base-class path; three open findings reported as "
+      TRUST + "; parser boundary stubbed; SQLAlchemy provider only through the shared base-class path; four open findings reported as "
       "KNOWN-FINDING (star over join with overlapping column, star over join with partial knowledge, star "
-      "through CTE); one defect found here was repaired in /repo (explicit column list merged with the target's metadata columns)",
+      "through CTE, star into a known target paired by name); one defect found here was repaired in /repo (explicit column list merged with the target's metadata columns)",
       "DESIGN.md section 4 (C13)")
 
 claim("C04",
